@@ -4,4 +4,5 @@ CONSTANTS
   PEERS = {"p1", "p2", "p3"}
   Thr = 1
   CheckMode = "once"
+  ForgetMode = "name"
   RenewMode = "restart"
